@@ -10,7 +10,7 @@ from . import ops, extract
 from . import keyed as _keyed
 from .ops import exc, is_number
 from .values import (
-    Ref, ListE, DequeE, SetE, DictE, ObjE, NdE, SymListE, FuncVal, BoundMethod, ClassVal, BuiltinClass,
+    Ref, ListE, DequeE, SetE, NumSetE, DictE, ObjE, NdE, SymListE, FuncVal, BoundMethod, ClassVal, BuiltinClass,
     ModuleVal, Builtin, ExcVal, Exc, Opaque, SliceVal, SuperVal, Unknown, Unsupported, EngineError,
     is_z3, z3val, coerce_pair, as_arith, is_intlike, is_reallike, is_boollike, to_frac,
 )
@@ -126,6 +126,11 @@ def getattr(I, st, v, name):
             yield st, dict_method(I, st, v, name)
             return
         if e.kind == "set":
+            yield st, set_method(I, st, v, name)
+            return
+        if e.kind == "numset":
+            if name != "add":
+                raise Unsupported("set of symbolic numbers: method " + name)
             yield st, set_method(I, st, v, name)
             return
         if e.kind == "nd":
@@ -736,6 +741,9 @@ def sorted_values(I, st, items, key=None, reverse=False):
     if all(obj_lt(I, cur, k) for k in keys):
         yield from sort_objects(I, cur, items, keys, reverse)
         return
+    if key is None and reverse in (False, True) and all(_plain_number(k) for k in keys):
+        yield from sort_symbolic_numbers(I, cur, items, bool(reverse))
+        return
     if all(is_number(k) for k in keys) or all(isinstance(k, tuple) for k in keys):
         # symbolic numbers / tuples (compared lexicographically, element by element): same scheme, `<` by key_lt
         yield from sort_by_pairs(I, cur, items, keys, reverse, lt_fn=key_lt)
@@ -760,6 +768,37 @@ def key_lt(I, st, x, y):
         yield from rec(st, 0)
         return
     yield from M.compare(I, st, "Lt", x, y)
+
+
+def sort_symbolic_numbers(I, st, items, reverse):
+    """sorted() of a concrete-length sequence of numbers, some symbolic: stable insertion sort, one path per feasible
+    order.  x goes behind every element that does not have to follow it (<= x ascending, >= x descending) - ties keep
+    their input order, as in Python."""
+    I.trust("sorted", "A3: sorted/list.sort is the stable ordering permutation w.r.t. <")
+    work = [(st, [])]
+    for pos in range(len(items)):
+        nxt = []
+        for s, acc in work:
+            x = items[pos]
+            m = len(acc)
+            for p in range(m + 1):
+                conds = []
+                if p > 0:
+                    a, b, _sym = coerce_pair(acc[p - 1], x)
+                    conds.append((a >= b) if reverse else (a <= b))
+                if p < m:
+                    a, b, _sym = coerce_pair(x, acc[p])
+                    conds.append((a > b) if reverse else (a < b))
+                c = _m().conj(conds)
+                if not I.feasible(s, c):
+                    continue
+                s2 = s.fork()
+                if is_z3(c):
+                    s2.pc.append(c)
+                nxt.append((s2, acc[:p] + [x] + acc[p:]))
+        work = nxt
+    for s, acc in work:
+        yield s, acc
 
 
 def obj_lt(I, st, k):
@@ -1011,6 +1050,34 @@ def dict_method(I, st, ref, name):
     return bi("dict." + name, tbl[name])
 
 
+def _plain_number(v):
+    return (isinstance(v, (int, Fraction)) and not isinstance(v, bool)) or (is_z3(v) and (z3.is_int(v) or z3.is_real(v)))
+
+
+def numset_add(I, st, ref, x):
+    """set.add(x) where x or an element already in the set is a symbolic number: x is a member iff it EQUALS an element
+    (numbers hash by value), so fork on x == e for each element e; on the remaining path x differs from all and is added."""
+    e = st.get(ref)
+    if not _plain_number(x) or not all(_plain_number(i) for i in e.items):
+        raise Unsupported("set mixing symbolic numbers with other keys")
+    if e.kind == "set":
+        st.store[ref.id] = NumSetE(e.items)
+    n = len(e.items)
+    pending = [st]
+    for idx in range(n):
+        nxt = []
+        for s in pending:
+            for s2, t in I.branch(s, _m().eq_values(I, s, s.get(ref).items[idx], x)):
+                if t:
+                    yield s2, None
+                else:
+                    nxt.append(s2)
+        pending = nxt
+    for s in pending:
+        s.get(ref).items.append(x)
+        yield s, None
+
+
 def _dict_fromkeys(I, st, a, k):
     keys = I.iterate(a[0], st)
     v = a[1] if len(a) > 1 else None
@@ -1022,6 +1089,9 @@ def set_method(I, st, ref, name):
         return st.get(ref).items
 
     def add(I, st, a, k):
+        if (is_z3(a[0]) and _plain_number(a[0])) or st.get(ref).kind == "numset":
+            yield from numset_add(I, st, ref, a[0])
+            return
         x = I.hashable(a[0])
         if x not in S(st):
             S(st).append(x)
@@ -1483,7 +1553,7 @@ def make_builtins(I):
             yield st, len(v.attrs(st))
         elif isinstance(v, Ref):
             e = st.get(v)
-            if e.kind in ("list", "deque", "set", "dict"):
+            if e.kind in ("list", "deque", "set", "dict", "numset"):
                 yield st, len(e.items)
             elif e.kind == "symlist":
                 yield st, e.length
@@ -1665,7 +1735,10 @@ def make_builtins(I):
         if isinstance(src, SymSetOf) or (isinstance(src, Ref) and st.get(src).kind == "symlist"):
             yield st, sorted_symbolic(I, st, src, k.get("reverse", False))
             return
-        items = I.iterate(a[0], st)
+        if isinstance(src, Ref) and st.get(src).kind == "numset":
+            items = list(st.get(src).items)  # sorted() does not depend on the iteration order of the set
+        else:
+            items = I.iterate(a[0], st)
         for st1, r in sorted_values(I, st, items, k.get("key"), k.get("reverse", False)):
             if isinstance(r, SortFailed):
                 r = r.exc
@@ -2261,6 +2334,26 @@ def make_ext_modules(I):
 
     it["chain"] = bi("itertools.chain", i_chain)
 
+    def i_islice(I, st, a, k):
+        """itertools.islice(iterable, stop) / (iterable, start, stop[, step]) with concrete non-negative ints or None
+        (eager, like every iterator of this engine)"""
+        import itertools as _it
+
+        if k or len(a) not in (2, 3, 4):
+            raise Unsupported("itertools.islice arguments")
+        for x in a[1:]:
+            if not (x is None or (isinstance(x, int) and not isinstance(x, bool))):
+                raise Unsupported("itertools.islice with symbolic bounds")
+            if x is not None and x < 0:
+                yield st, exc("ValueError", "Indices for islice() must be None or an integer: 0 <= x <= sys.maxsize.")
+                return
+        if len(a) == 4 and a[3] == 0:
+            yield st, exc("ValueError", "Step for islice() must be a positive integer or None.")
+            return
+        yield st, st.alloc(ListE(list(_it.islice(I.iterate(a[0], st), *a[1:]))))
+
+    it["islice"] = bi("itertools.islice", i_islice)
+
     def i_zip_longest(I, st, a, k):
         import itertools as _it
 
@@ -2389,6 +2482,26 @@ def make_ext_modules(I):
         yield st, RePattern(a[0])
 
     E["re"] = {"compile": bi("re.compile", re_compile)}
+
+    def st_mean(I, st, a, k):
+        """statistics.mean of a concrete-length sequence of numbers: their sum / their number (A1: as a real);
+        an empty sequence raises StatisticsError (a ValueError)"""
+        if k or len(a) != 1:
+            raise Unsupported("statistics.mean arguments")
+        xs = I.iterate(a[0], st)
+        if not xs:
+            yield st, exc("ValueError", "mean requires at least one data point")
+            return
+        if not all(_plain_number(x) for x in xs):
+            raise Unsupported("statistics.mean of non-numbers")
+        tot = xs[0]
+        for x in xs[1:]:
+            tot = ops_add(tot, x)
+        npm = __import__("pyvc.npmodel", fromlist=["tofloat"])
+        tot = npm.tofloat(tot)
+        yield st, (tot / Fraction(len(xs)) if isinstance(tot, Fraction) else tot / z3.RealVal(len(xs)))
+
+    E["statistics"] = {"mean": bi("statistics.mean", st_mean)}
     E["warnings"] = {"warn": bi("warnings.warn", lambda I, st, a, k: iter([(st, None)]))}
 
     from . import npmodel, bytesmodel
